@@ -36,6 +36,7 @@ type Solver struct {
 	emitStack [][]*Term      // terms defined at each level
 	levelGen  []int          // generation stamp of each live level
 
+	dirty      bool // something was sent since the last check-sat: the model is stale
 	Queries    int
 	SatCount   int
 	UnsatCount int
@@ -94,6 +95,9 @@ func (s *Solver) Close() {
 }
 
 func (s *Solver) send(line string) {
+	if strings.HasPrefix(line, "(declare-") || strings.HasPrefix(line, "(define-") || strings.HasPrefix(line, "(assert") || strings.HasPrefix(line, "(push") || strings.HasPrefix(line, "(pop") {
+		s.dirty = true
+	}
 	if s.log != nil {
 		fmt.Fprintln(s.log, line)
 	}
@@ -195,6 +199,7 @@ func (s *Solver) Assert(t *Term) {
 func (s *Solver) Check() SatResult {
 	start := time.Now()
 	s.send("(check-sat)")
+	s.dirty = false
 	s.Queries++
 	var res SatResult
 	for {
@@ -254,6 +259,12 @@ func (s *Solver) Values(vars []*Term) map[string]uint64 {
 	var names []string
 	for _, v := range vars {
 		names = append(names, s.ref(v))
+	}
+	if s.dirty {
+		// new declarations invalidate the solver's model: re-establish it
+		if s.Check() != Sat {
+			return res
+		}
 	}
 	s.send("(get-value (" + strings.Join(names, " ") + "))")
 	// read a balanced s-expression
@@ -376,6 +387,11 @@ func (s *Solver) ValuesOfTerms(ts []*Term) []uint64 {
 	names := make([]string, len(ts))
 	for i, t := range ts {
 		names[i] = s.ref(t)
+	}
+	if s.dirty {
+		if s.Check() != Sat {
+			return out
+		}
 	}
 	// evaluate one by one to keep the reply parser simple
 	for i, n := range names {
